@@ -52,7 +52,7 @@ PROPS = {
         trusted=CODEC_TRUST,
     ),
     "C05": dict(
-        domains=[("stream", "read", 6000, 80000), ("stream", "exhaustive", 1500, 6000), ("conn", "serve", 400, 4000), ("conn", "cnall4", 1, 1)],
+        domains=[("stream", "read", 6000, 80000), ("stream", "exhaustive", 1500, 6000), ("conn", "serve", 400, 4000), ("conn", "cnall4", 1, 1), ("conn", "xtalk", 24, 200)],
         relevant=["C05:"],
         theorems=["DV.Props.C05."+t for t in ["C05_split","C05_frag","C05_one","C05_eof","C05_in_header","C05_by_length","C05_gen"]],
         gen_obligations=["Gen.HeaderLength","Gen.MessageBufferLength"],
@@ -80,7 +80,7 @@ PROPS = {
         trusted=["Model.Dict hand-written from dict/parser.go and dict/util.go; the extractor's own XML reading of dict/default.go and its name interning"],
     ),
     "C10": dict(
-        domains=[("smserver", "hist", 1500, 20000), ("smserver", "cer", 500, 5000), ("smclient", "dialall", 1, 1), ("smclient", "dial", 200, 3000)],
+        domains=[("smserver", "hist", 1500, 20000), ("smserver", "cer", 500, 5000), ("smserver", "multi", 400, 4000), ("smclient", "dialall", 1, 1), ("smclient", "dial", 200, 3000)],
         relevant=["C10:"],
         theorems=["DV.Props.C10."+t for t in ["C10_gate","C10_after","C10_meta_after_write","C10_history","C10_builtin","C10_names_refused","C10_client_first_cea_decides","C10_client_gate_needs_success","C10_gen"]],
         gen_obligations=["Gen.smNewRegs","Gen.cmdCapabilitiesExchange","Gen.cmdDeviceWatchdog"],
@@ -108,7 +108,7 @@ PROPS = {
         trusted=CODEC_TRUST,
     ),
     "C08": dict(
-        domains=[("conn", "serve", 500, 6000), ("conn", "multi", 300, 4000), ("conn", "cnall4", 1, 1), ("conn", "accept", 60, 600)],
+        domains=[("conn", "serve", 500, 6000), ("conn", "multi", 300, 4000), ("conn", "cnall4", 1, 1), ("conn", "accept", 60, 600), ("conn", "burst", 30, 300)],
         thorough_extra=[("conn", "cnall5", 1, 1)],
         relevant=["C08:"],
         theorems=["DV.Props.C08."+t for t in ["C08_one_at_a_time","C08_next_after_return","C08_order","C08_all_dispatched","C08_frame","C08_enabled","C08_gen"]],
@@ -116,7 +116,7 @@ PROPS = {
         trusted=CONN_TRUST,
     ),
     "C14": dict(
-        domains=[("conn", "closenotify", 600, 8000), ("conn", "cnall4", 1, 1), ("conn", "serve", 200, 2000), ("sctp", "serve", 300, 4000), ("conn", "tlscn", 8, 40)],
+        domains=[("conn", "closenotify", 600, 8000), ("conn", "cnall4", 1, 1), ("conn", "serve", 200, 2000), ("sctp", "serve", 300, 4000), ("conn", "tlscn", 8, 40), ("conn", "stall", 1, 1)],
         thorough_extra=[("conn", "cnall6", 1, 1)],
         relevant=["C14:"],
         theorems=["DV.Props.C14."+t for t in ["C14_once","C14_only_when_gone","C14_quiet","C14_late_request","C14_transparent","C14_nothing_stuck","C14_multistream","C14_gen"]],
@@ -124,7 +124,7 @@ PROPS = {
         trusted=CONN_TRUST,
     ),
     "C15": dict(
-        domains=[("conn", "faults", 500, 6000), ("conn", "faults2", 300, 4000), ("conn", "multi", 300, 4000), ("conn", "accept", 60, 600), ("conn", "lw", 300, 4000), ("conn", "xtalk", 40, 400)],
+        domains=[("conn", "faults", 500, 6000), ("conn", "faults2", 300, 4000), ("conn", "multi", 300, 4000), ("conn", "accept", 60, 600), ("conn", "lw", 300, 4000), ("conn", "xtalk", 40, 400), ("conn", "stall", 1, 1), ("conn", "burst", 30, 300)],
         thorough_extra=[("conn", "cnall5", 1, 1)],
         relevant=["C15:"],
         theorems=["DV.Props.C15."+t for t in ["C15_panic_contained","C15_bad_input_contained","C15_one_report","C15_fault_cleanup","C15_frame","C15_mux_lock","C15_mux_lock_needs_defer","C15_listener","C15_listener_perm","C15_write_contained","C15_late_write_fails","C15_write_needs_own_writer","C15_pool_exclusive","C15_pool_double_put_counterexample","C15_pool_gen","C15_gen"]],
@@ -133,7 +133,7 @@ PROPS = {
                               "Model.ConnWrite: writer objects and the transports they point at (Server.newConn, response.Write); that each connection allocates its own bufio.Writer is the regenerated fact Gen.connBufferSources"],
     ),
     "C06": dict(
-        domains=[("alias", "leaf", 4000, 60000), ("alias", "hist", 1500, 20000), ("smserver", "hist", 800, 10000)],
+        domains=[("alias", "leaf", 4000, 60000), ("alias", "hist", 1500, 20000), ("smserver", "hist", 800, 10000), ("reflect", "rt", 600, 6000)],
         relevant=["C06:"],
         theorems=["DV.Props.C06."+t for t in ["C06_owned","C06_unchanged","C06_private_buffer","C06_gen","C06_current","C06_alias_counterexample"]],
         gen_obligations=["Gen.sliceKinded","Gen.decoderAliasing","Gen.groupedAVPFields","Gen.bodyBuffer","Gen.syncPools"],
@@ -147,7 +147,7 @@ PROPS = {
         trusted=CODEC_TRUST + ["Model.Sctp hand-written from diam/network_sctp.go (ReadAny, ReadStream, ReadAtLeast, verifyStreamBuff, bufferStreamData) and message.go readHeader/readBody; the kernel SCTP socket is replaced by the in-memory backend of the 'verif' hook (diam/verif_sctp.go): chunks are delivered in order, a chunk larger than the caller's buffer continues on the next read, every read carries stream information"],
     ),
     "C12": dict(
-        domains=[("smclient", "dialall", 1, 1), ("smclient", "dial", 400, 6000), ("smclient", "cea", 3000, 40000)],
+        domains=[("smclient", "dialall", 1, 1), ("smclient", "dial", 400, 6000), ("smclient", "cea", 3000, 40000), ("smclient", "dialtcp", 1, 1)],
         relevant=["C12:"],
         theorems=["DV.Props.C12."+t for t in ["C12_bound","C12_outcome","C12_timeout_last","C12_stable","C12_noblock","C12_cer","C12_cea_accept","C12_duplicate_cea_counterexample","C12_late_failure_counterexample","C12_answers_by_connection","C12_gen"]],
         gen_obligations=["Gen.handshakeAnswerHandlers","Gen.capErrc","Gen.ceaHandlerOnce","Gen.handshakeMakeCER","Gen.handshakeWrites","Gen.handshakeCloses","Gen.handshakeLoopCond"],
